@@ -19,7 +19,8 @@ OBLIGATIONS = {
         "Mx.mgr_returns_idle", "Mx.spurious_unlock_noop", "Mx.spur_pending_step", "Mx.reach_conforms",
         "Mx.Exec.relEvent_spec", "Mx.Exec.relEvent_free_noop",
     ],
-    "C15": ["Drf.conflict_separated"],
+    "C15": ["Drf.conflict_separated", "Drf.writer_blocks", "Drf.reader_blocks_writer", "Drf.acquire_needed", "Drf.wacquire_needed",
+            "Drf.next_LI", "Drf.run_LI"],
     "C16": [],
     "C17": [],
     "C19": [
@@ -49,6 +50,41 @@ OBLIGATIONS.update({
 OBLIGATIONS["C16"] = []
 OBLIGATIONS["C17"] = []
 
+
+def _loc(*names):
+    return ["Sx.Loc." + n for n in names]
+
+
+def _add(prop, names):
+    for n in names:
+        if n not in OBLIGATIONS.setdefault(prop, []):
+            OBLIGATIONS[prop].append(n)
+
+
+_add("C02", _loc("start_only_24", "c02_forged_step", "c02_store_untouched", "c02_store_untouched'"))
+_add("C03", _loc("c03_stale_refused", "c03_zero_expiry_refused", "c03_stale_new", "c03_fresh_not_stale", "c03_never_stale_max",
+                 "c03_expired_sound", "c03_expired_invalid", "expired_ref_iff") + ["Sx.compact_spec", "Sx.purge_spec"])
+_add("C04", _loc("regenerate_spec", "regenerate_evs_ok", "regenerate_cookie_last", "c04_rotation_step", "c04_young_untouched",
+                 "c04_reference_never_mints", "c04_reference_redirect") + ["Mx.mutex_exclusion"])
+_add("C05", _loc("expired_ref_iff", "c04_reference_redirect", "follow_valid", "c04_reference_never_mints", "startValid_ref_expired") +
+     ["Sx.follow_spec", "Sx.fireDue_inv", "Sx.advance_inv"])
+_add("C06", _loc("matchIP_canonical", "matchIP_bracket", "c06_ip", "c06_ip_2", "c06_ip_3", "c06_ip_4", "c06_ua", "c06_destroy",
+                 "c06_ip_destroy", "c06_ua_destroy", "validFor_false_iff", "c06_moves", "c06_moves_start"))
+_add("C07", _loc("c06_destroy", "c03_stale_refused", "destroy_ok_iff", "c18_deletion_only_when_looked_up"))
+_add("C08", _loc("hlogin_ok_saved", "hlogout_ok_user", "hlogout_ok_saved", "hlogin_err_iff", "hlogin_ok_iff"))
+_add("C09", _loc("hset_ok_saved", "hset_ok_value", "hdel_ok_saved", "hlogout_ok_saved", "hgetdel_saved", "createNew_sess_saved",
+                 "regenerate_ok_saved", "hlogin_ok_saved", "c09_cacheSet"))
+_add("C10", _loc("regenerate_evs_ok", "regenerate_spec"))
+_add("C11", _loc("start_failed_load", "start_failed_user", "start_ok_no_failed_call", "start_ok_saveFail_flush", "start_get_err_iff",
+                 "cacheSet_false_iff", "hset_err_iff", "hdel_err_iff", "hlogout_err_iff", "regenerate_false_iff", "destroy_ok_iff",
+                 "hlogin_err_iff", "logoutUser_usersFail", "refreshUser_usersFail", "setUserAll_true_clean", "hset_ok_saved",
+                 "regenerate_ok_saved", "createNew_sess_saved"))
+_add("C12", _loc("compact_flushed", "sweep_flushed", "evictLoop_flushed"))
+_add("C18", _loc("start_cookie_shapes", "start_sess_last_cookie", "c18_same_id_no_cookie", "c18_same_id_cookie_cases",
+                 "c18_changed_id_cookie", "c18_no_cookie_presented", "c18_deletion_only_when_looked_up", "start_jar_sess",
+                 "applyCookies_last_set", "regenerate_cookie_last"))
+_add("C01", _loc("start_jar_sess", "c04_rotation_step", "c04_young_untouched", "hset_ok_saved"))
+
 for _p in ("C01", "C02", "C03", "C04", "C05", "C06", "C07", "C08", "C09", "C10", "C11", "C12", "C18"):
     OBLIGATIONS.setdefault(_p, [])
 
@@ -60,3 +96,25 @@ TRUSTED_BASE = [
     "hash/fnv, crypto/rand) are modelled or assumed, not verified",
     "freshness/unguessability of generated ids (ID.gen n is distinct from all earlier ids and from every presented value)",
 ]
+
+
+# Theorems about facts REGENERATED from the source on every run (module to build, theorem names), per property.
+FACT_OBLIGATIONS = {
+    "C02": [("Sessions.FactsBracketStart", ["FactsBrackets.start_looks_up_only_24"])],
+    "C04": [("Sessions.FactsBracketStart", ["FactsBrackets.start_is_critical_section"]),
+            ("Sessions.FactsBracketLogin", ["FactsBrackets.login_is_critical_section"])],
+    "C07": [("Sessions.FactsPinsDelete", ["FactsPins.cache_delete_source_matches_model"])],
+    "C11": [("Sessions.FactsErrors", ["FactsErrors.errors_propagate", "FactsErrors.error_sites_cover"])],
+    "C12": [("Sessions.FactsPinsCache", ["FactsPins.cache_source_matches_model"])],
+    "C13": [("Sessions.FactsPinsMutex", ["FactsPins.mutex_source_matches_model"]),
+            ("Sessions.FactsBracketStart", ["FactsBrackets.start_is_critical_section"])],
+    "C14": [("Sessions.FactsPinsMutex", ["FactsPins.mutex_source_matches_model"])],
+    "C15": [("Sessions.FactsLocks", ["FactsLocks.lockDiscipline_ok", "FactsLocks.compact_called_locked", "FactsLocks.referenceID_write_once",
+                                     "FactsLocks.nothing_unrecognised", "FactsLocks.access_table_covers", "FactsLocks.discipline_instantiates",
+                                     "FactsLocks.rows_separated", "Kv.lin_sequential", "Kv.ret_in_lin", "Kv.realtime_order",
+                                     "Kv.handed_nodup", "Kv.getAndDelete_at_most_one"]),
+            ("Sessions.FactsBracketKv", ["FactsBrackets.kv_single_section"])],
+    "C19": [("Sessions.FactsPinsIds", ["FactsPins.ids_source_matches_model"]),
+            ("Sessions.FactsBracketCuid", ["FactsBrackets.cuid_is_critical_section"])],
+    "C20": [("Sessions.FactsPinsPassword", ["FactsPins.password_source_matches_model"])],
+}
